@@ -212,22 +212,32 @@ func channels(line string) map[string]string {
 			tt = append(tt, e)
 		}
 		m["T"], m["LA"] = strings.Join(tt, ";"), strings.Join(la, ";")
+		// the holds in the table (lock objects without a holder left out: whether an unheld object is
+		// still there is garbage collection's business, C13)
+		th := []string{}
+		for _, e := range tt {
+			if e != "" && !strings.HasSuffix(e, ":[]") {
+				th = append(th, e)
+			}
+		}
+		m["TH"] = strings.Join(th, ";")
 	}
 	return m
 }
 
 // which channels a property's tie owns (DESIGN §6)
 var owned = map[string][]string{
-	"C01": {"r", "T"},
+	"C01": {"r", "TH"},
 	"C03": {"r", "P", "now"},
-	"C04": {"r", "T", "TM", "now"},
+	"C04": {"r", "TH", "TM", "now"},
 	"C07": {"r", "L", "T", "F", "TM", "P"},
-	"C08": {"L", "T", "F"},
+	"C08": {"L", "TH", "F"},
 	"C09": {"L", "F"},
-	"C10": {"r", "L", "T", "F", "TM"},
+	"C10": {"r", "L", "TH", "F", "TM"},
+	"C06": {"r", "L", "TH", "TM", "P"},
 	"C12": {"r"},
 	"C13": {"r", "T", "LA"},
-	"C18": {"r", "L", "T", "F", "TM"},
+	"C18": {"r", "L", "TH", "F", "TM"},
 	"":    {"r", "L", "T", "F", "TM", "P", "LA", "now"},
 }
 
@@ -289,6 +299,7 @@ func profileFor(prop string) Profile {
 	case "C12":
 		p.Invalid = 35
 		p.NoSessionReq = 2
+		p.WideNames = true
 	case "C13":
 		p.Gc = 12
 		p.GcOn = true
@@ -305,6 +316,11 @@ func profileFor(prop string) Profile {
 	case "C09":
 		p.Restart = 10
 		p.FixedCfg = nil
+	case "C06":
+		p.Disc = 14
+		p.LeaseFocus = true
+		p.Invalid = 5
+		p.Restart = 1
 	case "C10":
 		p.Restart = 8
 	case "C03":
@@ -510,7 +526,7 @@ func corpus(t *testing.T, prop string) []*History {
 // shardReplay (C12): every history is replayed on the real server under the other shard counts; the
 // response stream must be identical (implementation against implementation, no model involved).
 func shardReplay(t *testing.T, hs []*History, res *common.Result) {
-	counts := []uint32{0, 1, 2, 16, 1000}
+	counts := []uint32{0, 1, 3, 16, 100, 1000} // powers of two and others
 	var mu sync.Mutex
 	t.Run("shards", func(t *testing.T) {
 		for w := 0; w < 16; w++ {
